@@ -551,6 +551,10 @@ theorem applyRequest_PI (m : Mach U) (t : Transition) (i : Nat) (h : m.w.PI) : (
   simp only [Mach.applyRequest]
   pis [Node.request_PI _ _ _, Node.fwdActive_PI _ _ _]
 
+theorem applyRequestNoPin_PI (m : Mach U) (t : Transition) (h : m.w.PI) : (m.applyRequestNoPin t).w.PI := by
+  simp only [Mach.applyRequestNoPin]
+  pis [Node.request_PI _ _ _, Node.fwdActive_PI _ _ _]
+
 theorem applyAll_PI : (ts : List Transition) → (m : Mach U) → (i : Nat) → m.w.PI → (m.applyAll ts i).w.PI
   | [], m, i, h => by simp only [Mach.applyAll]; exact h
   | t :: rest, m, i, h => by
@@ -630,9 +634,8 @@ theorem foldl_PI {α : Type} (f : Mach U → α → Mach U) (hf : ∀ m x, m.w.P
   | x :: rest, m', h => foldl_PI f hf rest _ (hf m' x h)
 
 theorem applyRequests_PI (m : Mach U) (ts : List Transition) (h : m.w.PI) : (m.applyRequests ts).1.w.PI := by
-  simp only [Mach.applyRequests]
-  exact foldl_PI _ (fun m (x : Transition × Nat) hm => applyRequest_PI m x.1 x.2 hm) _
-    { root := m.root, w := m.w.freshControl, structActive := m.structActive, activity := m.activity } h.freshControl
+  exact applyRequests_inv (P := fun m' => m'.w.PI) (fun m' t i hm => applyRequest_PI m' t i hm)
+    (fun m' t hm => applyRequestNoPin_PI m' t hm) m ts h.freshControl
 
 theorem replayTransitions_PI (m : Mach U) (ts : List Transition) (h : m.w.PI) : (m.replayTransitions ts).1.w.PI := by
   simp only [Mach.replayTransitions, Mach.updateActivity]
